@@ -3281,6 +3281,17 @@ where
             }
         }
 
+        // The per-insertion and finalize flip repairs mutate cell orderings: restore the canonical
+        // positive orientation before the triangulation is handed out (every topology guarantee,
+        // not only the ones validated below).
+        if self.tri.tds.number_of_cells() > 0 {
+            self.restore_orientation_after_repair().map_err(|e| {
+                TriangulationConstructionError::GeometricDegeneracy {
+                    message: format!("Orientation invalid after construction repair: {e}"),
+                }
+            })?;
+        }
+
         if topology.requires_vertex_links_at_completion() {
             tracing::debug!("post-construction: starting topology validation (finalize)");
             let validation_started = Instant::now();
